@@ -1,5 +1,24 @@
 package main
 
-import "net"
+import (
+	"io"
+	"net"
+	"os"
+
+	"github.com/pkg/sftp"
+)
 
 func netListenUnix(p string) (net.Listener, error) { return net.Listen("unix", p) }
+
+// nullHandlers: a request-server backend on which every operation fails with not-exist.
+type nullHandlers struct{}
+
+func (nullHandlers) Fileread(*sftp.Request) (io.ReaderAt, error)   { return nil, os.ErrNotExist }
+func (nullHandlers) Filewrite(*sftp.Request) (io.WriterAt, error)  { return nil, os.ErrNotExist }
+func (nullHandlers) Filecmd(*sftp.Request) error                   { return os.ErrNotExist }
+func (nullHandlers) Filelist(*sftp.Request) (sftp.ListerAt, error) { return nil, os.ErrNotExist }
+
+func nullHandlerSet() sftp.Handlers {
+	h := nullHandlers{}
+	return sftp.Handlers{FileGet: h, FilePut: h, FileCmd: h, FileList: h}
+}
